@@ -553,8 +553,12 @@ func (c *tunnelChannel) removeStream(streamID int64) {
 }
 
 func (c *tunnelChannel) close(err error) bool {
+	// Tear down only after the channel has been marked as finished (and its
+	// error recorded): tearing down first lets a concurrent operation on the
+	// torn down stream fail and record that failure as the reason for the
+	// channel closing, even for a clean call to Close.
 	if c.tearDown != nil {
-		c.tearDown(c)
+		defer c.tearDown(c)
 	}
 
 	c.mu.Lock()
